@@ -336,24 +336,26 @@ type LoopSpec struct {
 }
 
 type FuncSpec struct {
-	Key      string
-	Pkg      string
-	Params   []string // receiver first
-	Results  []string
-	Props    []string
-	Requires []Clause
-	Ensures  []Clause
-	Modifies []ModItem
-	HasMod   bool
-	Allocs   bool
+	Key       string
+	Pkg       string
+	Params    []string // receiver first
+	Results   []string
+	Props     []string
+	Requires  []Clause
+	Ensures   []Clause
+	Modifies  []ModItem
+	HasMod    bool
+	Allocs    bool
 	AllocList []string
-	Loops    map[int]*LoopSpec
-	Inline   bool // contract only used when verifying; callers inline the body
-	Trusted  bool // contract assumed, body not verified (listed in evidence)
-	Asserts  map[string][]Clause // keyed "call:<callee>:<n>" — hints assumed+proved before a call
-	File     string
-	Line     int
-	Cases    []Clause // optional case split: the body is verified once per case (param == constant cases are substituted)
+	Loops     map[int]*LoopSpec
+	Inline    bool                // contract only used when verifying; callers inline the body
+	Trusted   bool                // contract assumed, body not verified (listed in evidence)
+	Asserts   map[string][]Clause // keyed "call:<callee>:<n>" — hints assumed+proved before a call
+	File      string
+	Line      int
+	Locks     bool     // public method: acquires the guarding mutex itself (lock discipline is checked)
+	Locked    bool     // helper: must be called with the guarding mutex held
+	Cases     []Clause // optional case split: the body is verified once per case (param == constant cases are substituted)
 }
 
 type PredDef struct {
@@ -410,7 +412,7 @@ func parseFunParams(s string) []FunParam {
 var modsets = map[string]string{}
 
 var clauseKW = map[string]bool{"fun": true, "modset": true, "pred": true, "func": true, "lemma": true, "props": true, "requires": true,
-	"modifies": true, "allocs": true, "ensures": true, "loop": true, "inline": true, "trusted": true, "assert": true, "case": true}
+	"modifies": true, "allocs": true, "ensures": true, "loop": true, "inline": true, "trusted": true, "assert": true, "case": true, "locks": true, "locked": true, "guarded": true}
 
 func (P *Program) loadContracts() error {
 	for name, pkg := range P.Pkgs {
@@ -503,6 +505,14 @@ func (P *Program) loadContractFile(pkg, file string) error {
 	}
 	for _, rc := range raws {
 		switch rc.kw {
+		case "guarded":
+			// guarded <Type>.<mutex field> protects item, item, ...
+			k := strings.Index(rc.text, "protects")
+			if k < 0 {
+				return fmt.Errorf("%s:%d: guarded needs 'protects'", file, rc.line)
+			}
+			P.Guards = append(P.Guards, &GuardDef{Pkg: pkg, Mutex: strings.TrimSpace(rc.text[:k]), Items: splitTop(rc.text[k+len("protects"):], ',')})
+			cur = nil
 		case "modset":
 			k := strings.Index(rc.text, "=")
 			modsets[pkg+"."+strings.TrimSpace(rc.text[:k])] = strings.TrimSpace(rc.text[k+1:])
@@ -626,6 +636,10 @@ func (P *Program) loadContractFile(pkg, file string) error {
 			switch rc.kw {
 			case "props":
 				cur.Props = append(cur.Props, strings.Fields(rc.text)...)
+			case "locks":
+				cur.Locks = true
+			case "locked":
+				cur.Locked = true
 			case "inline":
 				cur.Inline = true
 			case "trusted":
@@ -818,4 +832,10 @@ func (n *SNode) Text() string {
 		return "(" + n.Op + " " + strings.Join(vs, ", ") + " :: " + n.Args[0].Text() + ")"
 	}
 	return "?"
+}
+
+type GuardDef struct {
+	Pkg   string
+	Mutex string
+	Items []string
 }
